@@ -37,6 +37,7 @@ type opReq struct {
 	Hex      string   `json:"hex,omitempty"`
 	Digest   bool     `json:"digest,omitempty"` // report sha1 of each row instead of the values
 	NoRows   bool     `json:"no_rows,omitempty"`
+	Reuse    bool     `json:"reuse,omitempty"`     // low level ops: use the *Table / *Index object an earlier op on this handle obtained
 	NestedAt int      `json:"nested_at,omitempty"` // on its k-th call the callback runs Nested on the SAME handle
 	Nested   *opReq   `json:"nested,omitempty"`
 }
@@ -68,6 +69,49 @@ type handle struct {
 	tp  *tracePager
 	db  *sdb.Database
 	hdb *sqlittle.DB
+	// objects of the low level API kept across transactions (ops with "reuse": true)
+	tables  map[string]*sdb.Table
+	indexes map[string]*sdb.Index
+}
+
+// the *Table / *Index of an earlier operation on this handle when the op asks for it ("reuse"): a caller of the low
+// level API may keep these objects as long as the handle lives
+func (h *handle) table(r *opReq) (*sdb.Table, error) {
+	if r.Reuse && h.tables[r.Table] != nil {
+		return h.tables[r.Table], nil
+	}
+	t, err := h.db.Table(r.Table)
+	if err == nil {
+		if h.tables == nil {
+			h.tables = map[string]*sdb.Table{}
+		}
+		h.tables[r.Table] = t
+	}
+	return t, err
+}
+
+func (h *handle) index(r *opReq) (*sdb.Index, error) {
+	key := "i:" + r.Index
+	if r.Index == "" {
+		key = "t:" + r.Table
+	}
+	if r.Reuse && h.indexes[key] != nil {
+		return h.indexes[key], nil
+	}
+	var ix *sdb.Index
+	var err error
+	if r.Index != "" {
+		ix, err = h.db.Index(r.Index)
+	} else {
+		ix, err = h.db.NonRowidTable(r.Table)
+	}
+	if err == nil {
+		if h.indexes == nil {
+			h.indexes = map[string]*sdb.Index{}
+		}
+		h.indexes[key] = ix
+	}
+	return ix, err
 }
 
 func openHandle(b *batchReq) (*handle, error, []event) {
@@ -279,7 +323,7 @@ func runOp(h *handle, r *opReq) (res opRes) {
 		})
 	case "table_scan":
 		lowLocked(func() error {
-			t, err := h.db.Table(r.Table)
+			t, err := h.table(r)
 			if err != nil {
 				return err
 			}
@@ -289,7 +333,7 @@ func runOp(h *handle, r *opReq) (res opRes) {
 		})
 	case "rowid":
 		lowLocked(func() error {
-			t, err := h.db.Table(r.Table)
+			t, err := h.table(r)
 			if err != nil {
 				return err
 			}
@@ -304,13 +348,7 @@ func runOp(h *handle, r *opReq) (res opRes) {
 		})
 	case "index_scan", "scan_min", "scan_range", "scan_eq":
 		lowLocked(func() error {
-			var ix *sdb.Index
-			var err error
-			if r.Index != "" {
-				ix, err = h.db.Index(r.Index)
-			} else {
-				ix, err = h.db.NonRowidTable(r.Table)
-			}
+			ix, err := h.index(r)
 			if err != nil {
 				return err
 			}
